@@ -977,6 +977,17 @@ func (w *arWorld) runScenario(name string) {
 		w.runProofStates()
 		return
 	}
+	switch name { // s_autoreceive_admin.go
+	case "slice-lengths":
+		w.runSliceLengths()
+		return
+	case "admin-machine":
+		w.runAdminMachine()
+		return
+	case "time-regimes":
+		w.runTimeRegimes()
+		return
+	}
 	if strings.HasPrefix(name, "spork-switch:") {
 		w.runSporkSwitch(strings.TrimPrefix(name, "spork-switch:"))
 		return
